@@ -137,3 +137,15 @@ Definition check_1921 (fs : list field) : verdict :=
     else VBad 1 [FB e]
   | _ => VBad 99 []
   end.
+
+(* 1922: WriteAnyWithDesc(integer descriptor, decimal text of n, cast): the text denotes n exactly (strconv.ParseInt), then the
+   Go conversion to the field width. fields = type, n, form (string / []byte), err, bytes *)
+Definition check_1922 (fs : list field) : verdict :=
+  match fs with
+  | [FZ t; FZ n; FZ form; FZ err; FB b] =>
+    let x := if t =? T_BYTE then VByte (to_s 8 n) else if t =? T_I16 then VI16 (to_s 16 n)
+             else if t =? T_I32 then VI32 (to_s 32 n) else VI64 n in
+    if negb (in_sb 64 n) then VSkip else
+    expect 1 ((err =? 0) && bytes_eqb b (encode x)) [FB (encode x)]
+  | _ => VBad 99 []
+  end.
